@@ -32,7 +32,7 @@ CMP_COQ = {"=": "CEq", "<": "CLt", "<=": "CLe", ">": "CGt", ">=": "CGe"}
 # "pre4" (766ce6b, 21e37aa, 79488b4, 596613e reverted), "ortab"/"njunc"/"nnull"/"ninfo" (pre4 + one of them),
 # "prequote" (also 60fb795 reverted), "legacy" (everything reverted).
 DEFAULT_VARIANT = "current"
-LABEL_FN = {"current": "case_labels", "bestfix": "case_labels_bestfix", "pre4": "case_labels_pre4", "prequote": "case_labels_prequote", "legacy": "case_labels_legacy",
+LABEL_FN = {"current": "case_labels", "bestfix": "case_labels_bestfix", "slicefix": "case_labels_slicefix", "bothfix": "case_labels_bothfix", "pre4": "case_labels_pre4", "prequote": "case_labels_prequote", "legacy": "case_labels_legacy",
             "ortab": "case_labels_ortab", "ninfo": "case_labels_ninfo", "nnull": "case_labels_nnull", "njunc": "case_labels_njunc"}
 
 KNOWN_CLASSES = {     # label bits of Model.case_labels that may excuse a failure (only live findings)
@@ -583,7 +583,7 @@ def gen_cases(ctx):
     rng = ctx.rng
     thorough = ctx.tier == "thorough"
     n_db = 300 if thorough else 60
-    per_db = 16 if thorough else 12
+    per_db = 16 if thorough else 10
     cases = []
     for d in range(n_db):
         for_order = rng.random() < 0.5
@@ -627,15 +627,15 @@ def gen_cases(ctx):
                 cases.append({"kind": "query", "db": db, "pred": pred, "top_only": rng.random() < 0.5,
                               "chain": pred[0] == "and" and rng.random() < 0.4})
         if len(db) >= 4:
-            for _ in range(2):
+            for _ in range(2 if d % 2 == 0 else 1):
                 cases.append(gen_chain_case(rng, db))
-        if d % 2 == 0:
+        if d % (3 if thorough else 2) == 0:
             gdb = gen_grid_db(rng, thorough)
             gpool = lambda: make_pool(rng, gdb, 3)
 
             def make_gpred(maxdepth=2):
                 return gen_pred(rng, gdb, rng.randint(0, maxdepth), gpool(), "tame")
-            for _ in range(8 if thorough else 6):
+            for _ in range(5):
                 cases.append({"kind": "grid", "db": gdb, "top_only": rng.random() < 0.5,
                               "ops": gen_gops(rng, gdb, make_gpred), "index": rng.randint(-len(gdb), len(gdb) - 1)})
     return cases
